@@ -22,6 +22,7 @@
    storage-fault plan [f] (n-th write fails, crash before the n-th mutating effect), every
    history; no bound on any length. *)
 From Helm Require Props.Skeleton. (* effect skeleton tied to /repo by the translator: notes/SKEL.md *)
+From Helm Require Props.Decisions. (* data conditions of the release operations tied to /repo by the translator: notes/DEC.md *)
 From Coq Require Import List String Bool Arith.
 From Helm Require Import Engine.Types Engine.Eff Engine.Ops Engine.Cluster Engine.Seq Engine.SeqProofs
   Engine.LedgerBase Engine.LedgerPieces Engine.LedgerRev Engine.LedgerDep Engine.LedgerPrune Engine.LedgerRecover
